@@ -153,17 +153,20 @@ pub fn session_case(ctx: &mut Ctx, frames: &[Vec<u8>], msgs: &[M], label: &str) 
     }
 }
 
-pub fn write_case(ctx: &mut Ctx, frames: &[Vec<u8>]) {
-    let packets: Vec<insim::Packet> = frames.iter().filter_map(|f| packet_of(false, f)).collect();
+pub fn write_case(ctx: &mut Ctx, frames: &[Vec<u8>]) { write_case_m(ctx, false, frames) }
+
+/// … in either size mode (the adaptor carries whatever frames the codec produces: up to 1020 bytes in compressed mode)
+pub fn write_case_m(ctx: &mut Ctx, compressed: bool, frames: &[Vec<u8>]) {
+    let packets: Vec<insim::Packet> = frames.iter().filter_map(|f| packet_of(compressed, f)).collect();
     if packets.len() != frames.len() { return; }
-    let want: Vec<Vec<u8>> = packets.iter().filter_map(|p| { let p = p.clone(); guard(std::panic::AssertUnwindSafe(move || Codec::new(mode_of(false)).encode(&p).ok().map(|b| b.to_vec()))).flatten() }).collect();
+    let want: Vec<Vec<u8>> = packets.iter().filter_map(|p| { let p = p.clone(); guard(std::panic::AssertUnwindSafe(move || Codec::new(mode_of(compressed)).encode(&p).ok().map(|b| b.to_vec()))).flatten() }).collect();
     if want.len() != packets.len() { ctx.count("ws.write skipped (packet does not re-encode: C03)"); return; }
     ctx.oracle_eval("write");
     let got = guard(std::panic::AssertUnwindSafe(move || {
         rt().block_on(async move {
             let (addr, h) = serve(vec![], false).await;
             let c = client(addr).await;
-            let mut f = insim::net::tokio_impl::Framed::new(Box::new(c), Codec::new(mode_of(false)));
+            let mut f = insim::net::tokio_impl::Framed::new(Box::new(c), Codec::new(mode_of(compressed)));
             for p in packets { let _ = f.write(p).await; }
             tokio::time::sleep(Duration::from_millis(50)).await;
             let r = h.await.unwrap_or_default();
@@ -171,7 +174,14 @@ pub fn write_case(ctx: &mut Ctx, frames: &[Vec<u8>]) {
             r
         })
     }));
-    let input = format!("ws.write {}", frames.iter().map(|f| hex(f)).collect::<Vec<_>>().join("+"));
+    let input = format!("{} {}", if compressed { "ws.writec" } else { "ws.write" }, frames.iter().map(|f| hex(f)).collect::<Vec<_>>().join("+"));
+    // independent of the encoder's own idea of a frame: one message per packet, each as long as its size byte says
+    if let Some(g) = &got {
+        let bad = g.iter().any(|d| d.len() < 4 || (if compressed { d[0] as usize * 4 } else { d[0] as usize }) != d.len());
+        if bad || g.len() != frames.len() {
+            ctx.violation("c20/write/not-one-frame", "a binary message does not hold exactly one frame (its length differs from what its size byte announces), or the number of messages differs from the number of packets written", &input, &format!("{} messages, each as long as its size byte says", frames.len()), &format!("{:?}", g.iter().map(|r| truncate(&hex(r), 40)).collect::<Vec<_>>()));
+        }
+    }
     if got.as_ref() != Some(&want) {
         ctx.violation("c20/write/messages", "a written packet did not leave as exactly one binary message containing exactly its frame", &input, &format!("{:?}", want.iter().map(|r| hex(r)).collect::<Vec<_>>()), &format!("{:?}", got.map(|g| g.iter().map(|r| hex(r)).collect::<Vec<_>>())));
     }
@@ -273,6 +283,7 @@ pub fn run(ctx: &mut Ctx) {
                     CLOSE_CODE.store(0, std::sync::atomic::Ordering::Relaxed);
                 },
                 ["ws.write", frames] => write_case(ctx, &frames.split('+').map(unhex).collect::<Vec<_>>()),
+                ["ws.writec", frames] => write_case_m(ctx, true, &frames.split('+').map(unhex).collect::<Vec<_>>()),
                 ["ws.backpressure", n] => backpressure_case(ctx, n.parse().unwrap_or(3000)),
                 _ => {},
             }
@@ -338,5 +349,11 @@ pub fn run(ctx: &mut Ctx) {
         let fr: Vec<Vec<u8>> = (0..k).map(|_| ctx.rng.pick(&any).clone()).collect();
         write_case(ctx, &fr);
     }
+    // large frames (compressed mode announces up to 1020 bytes): alone and between small ones
+    for b in big_frames(true) {
+        write_case_m(ctx, true, &[b.clone()]);
+        write_case_m(ctx, true, &[vec![1, 3, 0, 0], b.clone(), vec![1, 3, 7, 3]]);
+    }
+    for b in big_frames(false) { write_case_m(ctx, false, &[b.clone()]); }
     backpressure_case(ctx, if quick { 3000 } else { 20000 });
 }
